@@ -16,6 +16,10 @@ type c19Prog struct {
 	Funcs     []string       // names of the declared functions
 	FuncFirst map[string]int // function name -> line of its first statement (always a marker)
 	Globals   int            // package-level variables with an initialiser
+	GoLit     bool           // the second goroutine is started from a function literal
+	HostPanic bool           // a line request makes SetBreakpoints panic in the host (finding C19-linebp-hostpanic)
+	Conc      bool           // two goroutines handing values over unbuffered channels (outside the model: reference checks only)
+	BPLines   []int          // lines on which the sessions may put breakpoints (nil: every line)
 	Wild      bool           // generated with the shapes on which the tracker is known to lose the node
 	Tag       string         // "gen" or the name of a fixed witness
 }
@@ -28,6 +32,7 @@ type c19gen struct {
 	nid     int // fresh names
 	// per function
 	loops  int
+	chans  int
 	defers int
 	callee []string // functions that may be called from the function being generated
 }
@@ -88,8 +93,130 @@ func (g *c19gen) block(ind, depth, lo, hi int, first bool, inFunc bool) {
 	}
 }
 
+// chanStmt emits a self-contained, single-goroutine use of a buffered channel. Every channel
+// operation has a blocking and a cancellable implementation, chosen when the closures are generated
+// (interp.cancelChan): plain execution runs the first, a debugged program the second (except in
+// function literals and after a line request, whose closures are generated earlier).
+func (g *c19gen) chanStmt(ind int) {
+	c := g.fresh("c")
+	v := g.fresh("v")
+	ok := g.fresh("ok")
+	switch g.r.intn(6) {
+	case 0: // send / receive within capacity, len and cap
+		g.emit(ind, fmt.Sprintf("%s := make(chan int, %d)", c, 2+g.r.intn(2)))
+		g.emit(ind, fmt.Sprintf("%s <- x", c))
+		g.emit(ind, fmt.Sprintf("%s <- x + 1", c))
+		k := len(g.lines) + 1
+		g.emit(ind, fmt.Sprintf(`println("L%d", len(%s), cap(%s))`, k, c, c))
+		g.markers = append(g.markers, k)
+		g.emit(ind, fmt.Sprintf("x = <-%s", c))
+		g.emit(ind, fmt.Sprintf("%s := <-%s", v, c))
+		g.emit(ind, fmt.Sprintf("x += %s %% 3", v))
+	case 1: // two-value receive before and after close
+		g.emit(ind, fmt.Sprintf("%s := make(chan int, 2)", c))
+		g.emit(ind, fmt.Sprintf("%s <- x", c))
+		g.emit(ind, fmt.Sprintf("%s, %s := <-%s", v, ok, c))
+		g.emit(ind, fmt.Sprintf("if %s {", ok))
+		g.marker(ind + 1)
+		g.emit(ind+1, fmt.Sprintf("x += %s %% 3", v))
+		g.emit(ind, "}")
+		if g.r.bool() {
+			g.emit(ind, fmt.Sprintf("%s <- 4", c))
+		}
+		g.emit(ind, fmt.Sprintf("close(%s)", c))
+		g.emit(ind, fmt.Sprintf("%s, %s = <-%s", v, ok, c))
+		g.emit(ind, fmt.Sprintf("if %s {", ok))
+		g.marker(ind + 1)
+		g.emit(ind, "} else {")
+		g.emit(ind+1, "x++")
+		g.marker(ind + 1)
+		g.emit(ind, "}")
+		g.emit(ind, fmt.Sprintf("%s, %s = <-%s", v, ok, c))
+		g.emit(ind, fmt.Sprintf("if !%s {", ok))
+		g.marker(ind + 1)
+		g.emit(ind+1, fmt.Sprintf("x += %s + 1", v))
+		g.emit(ind, "}")
+	case 2: // range over a closed buffered channel
+		g.emit(ind, fmt.Sprintf("%s := make(chan int, 3)", c))
+		for i, n := 0, g.r.intn(4); i < n; i++ {
+			g.emit(ind, fmt.Sprintf("%s <- x + %d", c, i))
+		}
+		g.emit(ind, fmt.Sprintf("close(%s)", c))
+		g.emit(ind, fmt.Sprintf("for %s := range %s {", v, c))
+		g.marker(ind + 1)
+		g.emit(ind+1, fmt.Sprintf("x += %s %% 2", v))
+		g.emit(ind, "}")
+	case 3: // select with default, with a ready receive, with a ready send
+		g.emit(ind, fmt.Sprintf("%s := make(chan int, 1)", c))
+		if g.r.bool() {
+			g.emit(ind, fmt.Sprintf("%s <- x", c))
+		}
+		g.emit(ind, "select {")
+		g.emit(ind, fmt.Sprintf("case %s := <-%s:", v, c))
+		g.marker(ind + 1)
+		g.emit(ind+1, fmt.Sprintf("x += %s %% 3", v))
+		g.emit(ind, "default:")
+		g.emit(ind+1, "x++")
+		g.marker(ind + 1)
+		g.emit(ind, "}")
+		g.emit(ind, "select {")
+		g.emit(ind, fmt.Sprintf("case %s <- 5:", c))
+		g.marker(ind + 1)
+		g.emit(ind, "default:")
+		g.emit(ind+1, "x++")
+		g.marker(ind + 1)
+		g.emit(ind, "}")
+		k := len(g.lines) + 1
+		g.emit(ind, fmt.Sprintf(`println("L%d", len(%s))`, k, c))
+		g.markers = append(g.markers, k)
+	case 4: // drain a closed channel with the two-value receive until it reports closed
+		g.emit(ind, fmt.Sprintf("%s := make(chan int, 3)", c))
+		for i, n := 0, 1+g.r.intn(3); i < n; i++ {
+			g.emit(ind, fmt.Sprintf("%s <- %d", c, 1+g.r.intn(5)))
+		}
+		g.emit(ind, fmt.Sprintf("close(%s)", c))
+		kv := g.fresh("k")
+		g.emit(ind, fmt.Sprintf("for %s := 0; %s < 6; %s++ {", kv, kv, kv))
+		g.emit(ind+1, fmt.Sprintf("%s, %s := <-%s", v, ok, c))
+		g.emit(ind+1, fmt.Sprintf("if !%s {", ok))
+		g.marker(ind + 2)
+		g.emit(ind+2, "break")
+		g.emit(ind+1, "}")
+		g.marker(ind + 1)
+		g.emit(ind+1, fmt.Sprintf("x += %s %% 2", v))
+		g.emit(ind, "}")
+	default: // the same inside a function literal, whose closures are generated at compile time
+		h := g.fresh("h")
+		g.emit(ind, h+" := func(w int) int {")
+		g.marker(ind + 1)
+		g.emit(ind+1, fmt.Sprintf("%s := make(chan int, 2)", c))
+		g.emit(ind+1, fmt.Sprintf("%s <- w", c))
+		g.emit(ind+1, fmt.Sprintf("close(%s)", c))
+		g.emit(ind+1, fmt.Sprintf("%s, %s := <-%s", v, ok, c))
+		g.emit(ind+1, fmt.Sprintf("if %s {", ok))
+		g.marker(ind + 2)
+		g.emit(ind+1, "}")
+		g.emit(ind+1, fmt.Sprintf("%s, %s = <-%s", v, ok, c))
+		g.emit(ind+1, fmt.Sprintf("if %s {", ok))
+		g.marker(ind + 2)
+		g.emit(ind+2, fmt.Sprintf("w += %s + 10", v))
+		g.emit(ind+1, "}")
+		g.emit(ind+1, fmt.Sprintf("for %s := range %s {", v, c))
+		g.emit(ind+2, fmt.Sprintf("w += %s", v))
+		g.emit(ind+1, "}")
+		g.emit(ind+1, "return w + 1")
+		g.emit(ind, "}")
+		g.emit(ind, fmt.Sprintf("x = %s(x) %% 9", h))
+	}
+}
+
 func (g *c19gen) stmt(ind, depth int, inFunc bool) {
 	k := g.r.intn(100)
+	if depth > 0 && g.chans < 3 && g.r.chance(14) {
+		g.chans++
+		g.chanStmt(ind)
+		return
+	}
 	switch {
 	case k < 24:
 		g.marker(ind)
@@ -166,7 +293,7 @@ func c19Generate(r *rng, wild bool) c19Prog {
 	nf := 1 + r.intn(4)
 	for i := 0; i < nf; i++ {
 		name := fmt.Sprintf("f%d", i+1)
-		g.loops, g.defers = 0, 0
+		g.loops, g.defers, g.chans = 0, 0, 0
 		g.emit(0, "")
 		kind := r.intn(10)
 		switch {
@@ -238,7 +365,7 @@ func c19Generate(r *rng, wild bool) c19Prog {
 		}
 	}
 	g.emit(0, "")
-	g.loops, g.defers = 0, 0
+	g.loops, g.defers, g.chans = 0, 0, 0
 	g.emit(0, "func main() {")
 	p.FuncFirst["main"] = len(g.lines) + 1
 	p.Funcs = append(p.Funcs, "main")
@@ -282,8 +409,13 @@ func c19Witnesses() []c19Prog {
 	two.Globals = 2
 	two.Funcs = []string{"f1", "main"}
 	two.FuncFirst = map[string]int{"f1": 4, "main": 13}
+	hp := mk("selector-type-parameter", "package main\n\nimport \"sync\"\n\nfunc f(wg *sync.WaitGroup) {\n\tprintln(\"L6\")\n}\n\nfunc main() {\n\tvar wg sync.WaitGroup\n\tf(&wg)\n\tprintln(\"L12\")\n}\n", 6, 12)
+	hp.Funcs = []string{"f", "main"}
+	hp.FuncFirst = map[string]int{"f": 6, "main": 10}
+	hp.HostPanic = true
 	return []c19Prog{
 		two,
+		hp,
 		mk("if-else-same-generator", "package main\n\nfunc main() {\n\tprintln(\"L4\")\n\tc := false\n\tif c {\n\t\tprintln(\"L7\")\n\t} else {\n\t\tprintln(\"L9\")\n\t}\n\tprintln(\"L11\")\n}\n", 4, 7, 9, 11),
 		mk("loop-condition", "package main\n\nfunc main() {\n\tprintln(\"L4\")\n\ti := 0\n\tfor i < 3 {\n\t\tprintln(\"L7\")\n\t\ti++\n\t}\n\tprintln(\"L10\")\n}\n", 4, 7, 10),
 	}
@@ -309,4 +441,114 @@ func c19MarkerTrace(stdout string) []int {
 		}
 	}
 	return out
+}
+
+// c19GenerateConc builds a two-goroutine program: values are handed over unbuffered channels and a
+// sync.WaitGroup joins the worker, so the output does not depend on scheduling. The worker is a
+// named function or a function literal. Breakpoints are only put on lines that the main goroutine
+// runs (the sessions drive goroutine 0 only).
+func c19GenerateConc(r *rng) c19Prog {
+	g := &c19gen{r: r}
+	p := c19Prog{FuncFirst: map[string]int{}, Conc: true, Tag: "conc"}
+	g.emit(0, "package main")
+	g.emit(0, "")
+	g.emit(0, "import (")
+	g.emit(1, `"fmt"`)
+	g.emit(1, `"sync"`)
+	g.emit(0, ")")
+	g.emit(0, "")
+	lit := r.bool()
+	p.GoLit = lit
+	mul := 2 + r.intn(3)
+	n := 2 + r.intn(3)
+	worker := func(ind int) {
+		g.emit(ind, "defer wg.Done()")
+		switch r.intn(3) {
+		case 0:
+			g.emit(ind, "for v := range in {")
+			g.emit(ind+1, fmt.Sprintf("out <- v * %d", mul))
+			g.emit(ind, "}")
+		case 1:
+			g.emit(ind, "for {")
+			g.emit(ind+1, "v, ok := <-in")
+			g.emit(ind+1, "if !ok {")
+			g.emit(ind+2, "break")
+			g.emit(ind+1, "}")
+			g.emit(ind+1, fmt.Sprintf("out <- v + %d", mul))
+			g.emit(ind, "}")
+		default:
+			g.emit(ind, "for open := true; open; {")
+			g.emit(ind+1, "select {")
+			g.emit(ind+1, "case v, ok := <-in:")
+			g.emit(ind+2, "if !ok {")
+			g.emit(ind+3, "open = false")
+			g.emit(ind+2, "} else {")
+			g.emit(ind+3, fmt.Sprintf("out <- v * %d + 1", mul))
+			g.emit(ind+2, "}")
+			g.emit(ind+1, "}")
+			g.emit(ind, "}")
+		}
+		g.emit(ind, "close(out)")
+	}
+	if !lit {
+		// the WaitGroup is a package-level variable: a parameter of type *sync.WaitGroup is the shape of
+		// the finding C19-linebp-hostpanic (see c19Witnesses)
+		g.emit(0, "var wg sync.WaitGroup")
+		g.emit(0, "")
+		g.emit(0, "func worker(in chan int, out chan int) {")
+		worker(1)
+		g.emit(0, "}")
+		g.emit(0, "")
+	}
+	g.emit(0, "func main() {")
+	first := len(g.lines) + 1
+	p.FuncFirst["main"] = first
+	p.Funcs = []string{"main"}
+	g.marker(1)
+	g.emit(1, fmt.Sprintf("x := %d", r.intn(4)))
+	g.emit(1, "in := make(chan int)")
+	g.emit(1, "out := make(chan int)")
+	if lit {
+		g.emit(1, "var wg sync.WaitGroup")
+	}
+	g.emit(1, "wg.Add(1)")
+	var workerLines [2]int
+	if lit {
+		workerLines[0] = len(g.lines) + 1
+		g.emit(1, "go func() {")
+		worker(2)
+		g.emit(1, "}()")
+		workerLines[1] = len(g.lines)
+	} else {
+		g.emit(1, "go worker(in, out)")
+	}
+	v := g.fresh("i")
+	g.emit(1, fmt.Sprintf("for %s := 0; %s < %d; %s++ {", v, v, n, v))
+	g.emit(2, fmt.Sprintf("in <- %s + x", v))
+	g.emit(2, "w := <-out")
+	k := len(g.lines) + 1
+	g.emit(2, fmt.Sprintf(`println("L%d", w)`, k))
+	g.markers = append(g.markers, k)
+	g.emit(2, "x += w % 3")
+	g.emit(1, "}")
+	g.emit(1, "close(in)")
+	g.emit(1, "w, ok := <-out")
+	k = len(g.lines) + 1
+	g.emit(1, fmt.Sprintf(`println("L%d", w, ok)`, k))
+	g.markers = append(g.markers, k)
+	g.emit(1, "wg.Wait()")
+	k = len(g.lines) + 1
+	g.emit(1, fmt.Sprintf(`fmt.Println("L%d", x, w)`, k))
+	g.markers = append(g.markers, k)
+	g.emit(0, "}")
+	for l := first; l <= len(g.lines); l++ {
+		if lit && l >= workerLines[0] && l <= workerLines[1] {
+			continue
+		}
+		p.BPLines = append(p.BPLines, l)
+	}
+	p.Src = strings.Join(g.lines, "\n") + "\n"
+	p.NLines = len(g.lines)
+	p.Markers = g.markers
+	return p
 }
